@@ -128,8 +128,13 @@ def facts_for(repo=None, cfg='default', target_dir=None, quiet=False):
         info['cached'] = False
         info['extract_s'] = round(time.time() - t0, 2)
         # keep the cache small
-        olds = sorted(glob.glob(os.path.join(FACTS, '*.jsonl')), key=os.path.getmtime)
-        for p in olds[:-int(os.environ.get('SIMLINT_FACTS_KEEP', '400'))]:
+        def _mtime(p_):
+            try:
+                return os.path.getmtime(p_)
+            except OSError:      # removed by a concurrent run between glob and stat
+                return 0.0
+        olds = sorted(glob.glob(os.path.join(FACTS, '*.jsonl')), key=_mtime)
+        for p in olds[:-int(os.environ.get('SIMLINT_FACTS_KEEP', '60'))]:
             try:
                 os.remove(p)
             except OSError:
